@@ -132,6 +132,20 @@ CHECKS["C11"] = dict(
          "rule_manager.Rule).",
     design="4/C11")
 
+CHECKS["C13"] = dict(
+    level="model_checking", engine="X+S",
+    technique="CrossHair symbolic execution (z3) of the real taint worklist and the real statement scheduler with fuel counters "
+              "on every small graph; z3/cvc5 on the AST-derived call-descent guard and on a cost model of constant folding",
+    text="Only the mechanisms meant to make the analysis terminate are claimed, each as a bounded obligation on the real "
+         "function: propagate_taint stays within a linear number of worklist pops on every state-flow graph in the bound "
+         "(cycles included); analyze_stmts + SimpleWorkList end within the fuel on every single-entry CFG of 4 statements and "
+         "analyse no statement more than max_round times; the descent guard (boolean structure and constants read from the "
+         "AST) bounds descents per call site; the folding-cost query exhibits the known exponential case. Whole-pipeline "
+         "time is a measurement and not claimed.",
+    note="Trusted: CrossHair/z3/cvc5, the fuel formulas, the operator cost model (lower bounds on bit length). One open known "
+         "finding (unbounded ** / << folding).",
+    design="4/C13")
+
 NOT_APPLICABLE = {
     "C12": "A relation between two whole-pipeline runs on syntactically edited programs: the quantified objects are "
            "program texts and edit sequences; no run-time input, id, flag or history for a solver to range over; "
